@@ -12,19 +12,25 @@ import (
 	"sort"
 	"strconv"
 	"strings"
+	"time"
 )
 
-// MState is one state of Compaction.tla.
+// GState is the state of one store gateway in Compaction.tla.
+type GState struct {
+	View       []string `json:"view"`
+	Pending    []string `json:"pending"`
+	Syncing    bool     `json:"syncing"`
+	SinceBegin int      `json:"since_begin"`
+	SyncTicks  int      `json:"sync_ticks"`
+}
+
+// MState is one state of Compaction.tla (GW[g-1] = gateway g).
 type MState struct {
-	Files      map[string]string `json:"files"`
-	Mark       map[string]int    `json:"mark"`
-	Job        int               `json:"job"`
-	Phase      string            `json:"phase"`
-	View       []string          `json:"view"`
-	Pending    []string          `json:"pending"`
-	Syncing    bool              `json:"syncing"`
-	SinceBegin int               `json:"since_begin"`
-	SyncTicks  int               `json:"sync_ticks"`
+	Files map[string]string `json:"files"`
+	Mark  map[string]int    `json:"mark"`
+	Job   int               `json:"job"`
+	Phase string            `json:"phase"`
+	GW    []GState          `json:"gw"`
 }
 
 func (s MState) String() string {
@@ -53,6 +59,8 @@ type TLCResult struct {
 	Violated  string // name of the violated invariant, "" if none
 	Trace     string // TLC's error trace
 	Output    string
+	CPU       float64 // user+system seconds of the TLC process
+	Wall      float64
 }
 
 func cfgText(p Params) string {
@@ -60,7 +68,22 @@ func cfgText(p Params) string {
 	if p.Repl {
 		repl = "TRUE"
 	}
-	return fmt.Sprintf("SPECIFICATION Spec\nCONSTANTS\n  D = %d\n  I = %d\n  L = %d\n  S = %d\n  NJobs = %d\n  Replica = %s\nINVARIANTS TypeOK Served NoDangling\n", p.D, p.I, p.L, p.S, p.NJobs, repl)
+	return fmt.Sprintf("SPECIFICATION Spec\nCONSTANTS\n  D = %d\n  I = %d\n  L = %d\n  S = %d\n  NJobs = %d\n  Replica = %s\n  NG = %d\n  Owner2 <- Owner2V\n  Chain <- ChainV\nINVARIANTS TypeOK Served NoDangling\n",
+		p.D, p.I, p.L, p.S, p.NJobs, repl, p.gateways())
+}
+
+func tlaStrings(xs []string) string {
+	q := make([]string, len(xs))
+	for i, x := range xs {
+		q[i] = strconv.Quote(x)
+	}
+	return strings.Join(q, ", ")
+}
+
+// mcText is the module TLC runs: Compaction.tla plus the two constants that are not plain values (the
+// shard assignment and the filter chain read from cmd/thanos/store.go).
+func mcText(p Params) string {
+	return fmt.Sprintf("---- MODULE MC ----\nEXTENDS Compaction\nOwner2V == {%s}\nChainV == <<%s>>\n====\n", tlaStrings(p.Owner2), tlaStrings(p.Chain))
 }
 
 // runTLC model checks Compaction.tla with the constants of p inside dir; with dump the state graph is
@@ -77,20 +100,30 @@ func runTLC(specPath, dir string, p Params, dump bool, workers int) (TLCResult, 
 	if err := os.WriteFile(filepath.Join(dir, "Compaction.tla"), spec, 0o644); err != nil {
 		return res, err
 	}
-	if err := os.WriteFile(filepath.Join(dir, "Compaction.cfg"), []byte(cfgText(p)), 0o644); err != nil {
+	if err := os.WriteFile(filepath.Join(dir, "MC.tla"), []byte(mcText(p)), 0o644); err != nil {
+		return res, err
+	}
+	if err := os.WriteFile(filepath.Join(dir, "MC.cfg"), []byte(cfgText(p)), 0o644); err != nil {
 		return res, err
 	}
 	args := []string{"-deadlock", "-workers", strconv.Itoa(workers), "-metadir", filepath.Join(dir, "states")}
 	if dump {
 		args = append(args, "-dump", "dot,actionlabels", filepath.Join(dir, "graph.dot"))
 	}
-	args = append(args, "Compaction.tla")
+	args = append(args, "MC.tla")
 	cmd := exec.Command("tlc", args...)
 	cmd.Dir = dir
-	cmd.Env = append(os.Environ(), "JAVA_TOOL_OPTIONS=-Djava.io.tmpdir="+dir)
+	// the models are small and the machine is shared: the JVM's optimising compiler and a GC thread per core cost
+	// more CPU than they save
+	cmd.Env = append(os.Environ(), "JAVA_TOOL_OPTIONS=-XX:TieredStopAtLevel=1 -XX:ParallelGCThreads=2 -XX:-UsePerfData -Xms64m -Djava.io.tmpdir="+dir)
 	var out bytes.Buffer
 	cmd.Stdout, cmd.Stderr = &out, &out
+	t0 := time.Now()
 	runErr := cmd.Run()
+	res.Wall = time.Since(t0).Seconds()
+	if cmd.ProcessState != nil {
+		res.CPU = (cmd.ProcessState.UserTime() + cmd.ProcessState.SystemTime()).Seconds()
+	}
 	res.Output = out.String()
 	if m := regexp.MustCompile(`(\d+) states generated, (\d+) distinct states found`).FindAllStringSubmatch(res.Output, -1); len(m) > 0 {
 		last := m[len(m)-1]
@@ -133,9 +166,43 @@ var (
 	reStr    = regexp.MustCompile(`"([^"]*)"`)
 )
 
+var reSet = regexp.MustCompile(`\{([^}]*)\}`)
+
+// tupleItems splits the value of a per-gateway variable: TLC prints a function over 1..NG as <<v1, v2>>.
+func tupleItems(val string, sets bool) ([]string, error) {
+	val = strings.TrimSpace(val)
+	if !strings.HasPrefix(val, "<<") || !strings.HasSuffix(val, ">>") {
+		return nil, fmt.Errorf("per-gateway value %q is not a tuple", val)
+	}
+	val = strings.TrimSpace(val[2 : len(val)-2])
+	var out []string
+	if sets {
+		for _, m := range reSet.FindAllStringSubmatch(val, -1) {
+			out = append(out, m[1])
+		}
+		return out, nil
+	}
+	for _, it := range strings.Split(val, ",") {
+		out = append(out, strings.TrimSpace(it))
+	}
+	return out, nil
+}
+
 func parseState(label string) (MState, error) {
-	st := MState{Files: map[string]string{}, Mark: map[string]int{}, View: []string{}, Pending: []string{}}
+	st := MState{Files: map[string]string{}, Mark: map[string]int{}}
 	seen := 0
+	gw := func(n int) error {
+		if st.GW == nil {
+			st.GW = make([]GState, n)
+			for i := range st.GW {
+				st.GW[i] = GState{View: []string{}, Pending: []string{}}
+			}
+		}
+		if n != len(st.GW) || n == 0 {
+			return fmt.Errorf("per-gateway variables of different lengths in state label %q", label)
+		}
+		return nil
+	}
 	// one conjunct per variable; TLC breaks long values over several lines
 	for _, line := range strings.Split("\n"+label, "\n/\\ ") {
 		line = strings.Join(strings.Fields(line), " ")
@@ -155,34 +222,63 @@ func parseState(label string) (MState, error) {
 				st.Mark[m[1]], _ = strconv.Atoi(m[2])
 			}
 		case "view", "pending":
-			var set []string
-			for _, m := range reStr.FindAllStringSubmatch(val, -1) {
-				set = append(set, m[1])
+			items, err := tupleItems(val, true)
+			if err != nil {
+				return st, err
 			}
-			sort.Strings(set)
-			if set == nil {
-				set = []string{}
+			if err := gw(len(items)); err != nil {
+				return st, err
 			}
-			if name == "view" {
-				st.View = set
-			} else {
-				st.Pending = set
+			for g, it := range items {
+				set := []string{}
+				for _, m := range reStr.FindAllStringSubmatch(it, -1) {
+					set = append(set, m[1])
+				}
+				sort.Strings(set)
+				if name == "view" {
+					st.GW[g].View = set
+				} else {
+					st.GW[g].Pending = set
+				}
 			}
 		case "job":
 			st.Job, _ = strconv.Atoi(val)
 		case "phase":
 			st.Phase = strings.Trim(val, `"`)
-		case "syncing":
-			st.Syncing = val == "TRUE"
-		case "sinceBegin":
-			st.SinceBegin, _ = strconv.Atoi(val)
-		case "syncTicks":
-			st.SyncTicks, _ = strconv.Atoi(val)
+		case "syncing", "sinceBegin", "syncTicks":
+			items, err := tupleItems(val, false)
+			if err != nil {
+				return st, err
+			}
+			if err := gw(len(items)); err != nil {
+				return st, err
+			}
+			for g, it := range items {
+				switch name {
+				case "syncing":
+					if it != "TRUE" && it != "FALSE" {
+						return st, fmt.Errorf("syncing value %q", it)
+					}
+					st.GW[g].Syncing = it == "TRUE"
+				case "sinceBegin":
+					n, err := strconv.Atoi(it)
+					if err != nil {
+						return st, err
+					}
+					st.GW[g].SinceBegin = n
+				default:
+					n, err := strconv.Atoi(it)
+					if err != nil {
+						return st, err
+					}
+					st.GW[g].SyncTicks = n
+				}
+			}
 		default:
 			return st, fmt.Errorf("unknown variable %q in state label", name)
 		}
 	}
-	if seen != 9 || len(st.Files) == 0 || len(st.Files) != len(st.Mark) {
+	if seen != 9 || len(st.Files) == 0 || len(st.Files) != len(st.Mark) || len(st.GW) == 0 {
 		return st, fmt.Errorf("state label not understood (%d variables): %q", seen, label)
 	}
 	return st, nil
@@ -288,6 +384,50 @@ func parseDot(path string) (*Graph, error) {
 	return g, nil
 }
 
+// syncsWithinTick returns the part of the graph that is reachable when no Tick happens while a gateway is
+// between SyncBegin and SyncEnd (the model with S = 0: syncs still interleave with everything else, they just
+// do not span a tick boundary). States and edges keep their content; indices are renumbered.
+func syncsWithinTick(g *Graph) *Graph {
+	allowed := func(e Edge) bool {
+		if e.Act != "Tick" {
+			return true
+		}
+		for _, gw := range g.States[e.From].GW {
+			if gw.Syncing {
+				return false
+			}
+		}
+		return true
+	}
+	idx := map[int]int{g.Init: 0}
+	order := []int{g.Init}
+	for q := 0; q < len(order); q++ {
+		for _, ei := range g.Out[order[q]] {
+			e := g.Edges[ei]
+			if !allowed(e) {
+				continue
+			}
+			if _, ok := idx[e.To]; !ok {
+				idx[e.To] = len(order)
+				order = append(order, e.To)
+			}
+		}
+	}
+	sub := &Graph{Init: 0, States: make([]MState, len(order)), IDs: make([]string, len(order)), Out: make([][]int, len(order))}
+	for ni, oi := range order {
+		sub.States[ni], sub.IDs[ni] = g.States[oi], g.IDs[oi]
+		for _, ei := range g.Out[oi] {
+			e := g.Edges[ei]
+			if !allowed(e) {
+				continue
+			}
+			sub.Out[ni] = append(sub.Out[ni], len(sub.Edges))
+			sub.Edges = append(sub.Edges, Edge{Act: e.Act, From: ni, To: idx[e.To]})
+		}
+	}
+	return sub
+}
+
 // Path is one trace from the initial state; Fresh[i] tells whether step i is an edge no earlier path covered.
 type Path struct {
 	Edges []int
@@ -295,8 +435,10 @@ type Path struct {
 
 // coverPaths returns traces from the initial state that together traverse every edge of the graph: each
 // starts with the shortest path to a state that still has an untraversed outgoing edge and then keeps
-// following untraversed edges for as long as there are any (at most maxWalk).
-func coverPaths(g *Graph, maxWalk int) []Path {
+// following untraversed edges; when the current state has none left the trace moves on (over edges already
+// traversed) to the nearest state that has, instead of starting over from the initial state. A trace ends
+// when no such state can be reached or it has maxLen steps.
+func coverPaths(g *Graph, maxLen int) []Path {
 	parent := make([]int, len(g.States)) // edge index that first reached the state
 	for i := range parent {
 		parent[i] = -1
@@ -329,31 +471,70 @@ func coverPaths(g *Graph, maxWalk int) []Path {
 	}
 	done := make([]bool, len(g.Edges))
 	next := make([]int, len(g.States)) // per state: position in Out of the first possibly untraversed edge
+	hasFresh := func(u int) bool {
+		for next[u] < len(g.Out[u]) && done[g.Out[u][next[u]]] {
+			next[u]++
+		}
+		return next[u] < len(g.Out[u])
+	}
+	// breadth-first search from u for the nearest state with an untraversed edge
+	stamp := make([]int, len(g.States))
+	via := make([]int, len(g.States))
+	gen := 0
+	hop := func(u int) []int {
+		gen++
+		stamp[u] = gen
+		level := []int{u}
+		for len(level) > 0 {
+			var nl []int
+			for _, x := range level {
+				for _, ei := range g.Out[x] {
+					v := g.Edges[ei].To
+					if stamp[v] == gen {
+						continue
+					}
+					stamp[v] = gen
+					via[v] = ei
+					if hasFresh(v) {
+						var rev []int
+						for v != u {
+							rev = append(rev, via[v])
+							v = g.Edges[via[v]].From
+						}
+						for i, j := 0, len(rev)-1; i < j; i, j = i+1, j-1 {
+							rev[i], rev[j] = rev[j], rev[i]
+						}
+						return rev
+					}
+					nl = append(nl, v)
+				}
+			}
+			level = nl
+		}
+		return nil
+	}
 	var paths []Path
 	for _, u := range order {
-		for {
-			for next[u] < len(g.Out[u]) && done[g.Out[u][next[u]]] {
-				next[u]++
-			}
-			if next[u] >= len(g.Out[u]) {
-				break
-			}
+		for hasFresh(u) {
 			p := Path{Edges: prefix(u)}
 			for _, ei := range p.Edges {
 				done[ei] = true
 			}
 			cur := u
-			for w := 0; w < maxWalk; w++ {
-				for next[cur] < len(g.Out[cur]) && done[g.Out[cur][next[cur]]] {
-					next[cur]++
+			for first := true; first || len(p.Edges) < maxLen; first = false {
+				if hasFresh(cur) {
+					ei := g.Out[cur][next[cur]]
+					done[ei] = true
+					p.Edges = append(p.Edges, ei)
+					cur = g.Edges[ei].To
+					continue
 				}
-				if next[cur] >= len(g.Out[cur]) {
+				h := hop(cur)
+				if h == nil || len(p.Edges)+len(h) >= maxLen {
 					break
 				}
-				ei := g.Out[cur][next[cur]]
-				done[ei] = true
-				p.Edges = append(p.Edges, ei)
-				cur = g.Edges[ei].To
+				p.Edges = append(p.Edges, h...)
+				cur = g.Edges[h[len(h)-1]].To
 			}
 			paths = append(paths, p)
 		}
